@@ -383,7 +383,7 @@ def lemma_atom_identity():
     return [st]
 
 
-L_ATOM_IDENTITY = Lemma("atoms.compare-by-identity", lemma_atom_identity)
+L_ATOM_IDENTITY = Lemma("atoms.compare-by-identity", lemma_atom_identity, advisory=True, replay={"module": "stateful", "task": "identity"})
 
 
 def registrations():
@@ -442,7 +442,8 @@ def lemma_registration_matches_loader():
     return [st]
 
 
-L_REGISTRATION = Lemma("delayed_load.registration-matches-loader", lemma_registration_matches_loader)
+L_REGISTRATION = Lemma("delayed_load.registration-matches-loader", lemma_registration_matches_loader, advisory=True,
+                       replay={"module": "c09", "task": "replay_registration"})
 
 
 # ------------------------------------------------------------------------------ Element.isotopes
